@@ -48,15 +48,24 @@ def parseCp (c : Char) : CpOut :=
   if c = 'n' then .no else if c = 'x' || c = 'y' || c = 'z' then .raise else .base
 
 /-- `r,r,..|-|none[~<kind>]`: the mark `~<kind>` says as what TYPE of iterable the harness passes the request to the
-    real code (tuple, generator, iterator, map, dict keys view, deque, list subclass); `execute_operation` walks the
-    request exactly once, so the type does not matter and the model drops the mark -/
+    real code (tuple, generator, iterator, map, dict keys view, deque, list subclass, a list the work function empties);
+    `execute_operation` walks the request exactly once, so the type does not matter and the model drops the mark -/
 def parseReq (t0 : String) : List Nat :=
   let t := (t0.splitOn "~").headD ""
-  if t = "-" || t = "none" then [] else (t.splitOn ",").map (natD ·)
+  let ids := if t = "-" || t = "none" then [] else (t.splitOn ",").map (natD ·)
+  -- `~e<k>`: the iteration of the request RAISES after k ids — inside the single `try`, exactly like the ValueError of an
+  -- unregistered id at that position: the first k ids followed by an id that is never registered
+  match (t0.splitOn "~").drop 1 with
+  | [k] => if k.startsWith "e" then ids.take (natD (k.drop 1).toString) ++ [999999] else ids
+  | _ => ids
 
 def parseAct (t : String) : WorkAct :=
   if t = "s" then .shutdown else if t = "w" then .watchdog else if t = "m" then .maint
   else if t.startsWith "k" then .kill (natD (t.drop 1).toString) else .none
+
+/-- a priority token `<int>[~<kind>]`: the mark says as what numeric TYPE the harness passes the number (bool, int
+    subclass, Fraction); the code only compares and stores priorities, so the model drops it -/
+def parsePrio (t : String) : Int := intD ((t.splitOn "~").headD "")
 
 def parseVal (t : String) : ValOut :=
   if t = "yes" then .yes else if t = "no" then .no else if t.startsWith "raise" then .raise else .absent
@@ -175,7 +184,7 @@ def step (s : Sys) (toks : List String) : Sys × String :=
   | ["res", r, p] =>
     let r := natD r
     if (s.locks r).isSome then withDump s "dup" else withDump (s.register r (boolOf p)) "ok"
-  | ["start", o, p] => withDump (s.start (natD o) (intD p)).1 "ok"
+  | ["start", o, p] => withDump (s.start (natD o) (parsePrio p)).1 "ok"
   | ["acq", o, r] =>
     match s.ctx? (natD o) with
     | none => withDump s "noop"
@@ -219,6 +228,12 @@ def step (s : Sys) (toks : List String) : Sys × String :=
       else if f = "e" then withDump (lstep s (.flag (natD o) .execDone (boolOf b))) "ok"
       else if f = "v" then withDump (lstep s (.flag (natD o) .valPassed (boolOf b))) "ok"
       else withDump s "ok"
+  -- `ctx.priority = p` assigned from outside on a live context: only the context changes (a lock the operation owns
+  -- keeps the `owner_priority` it was taken with, waiting-list entries keep theirs)
+  | ["prio", o, p] =>
+    match s.ctx? (natD o) with
+    | none => withDump s "noop"
+    | some c => withDump (s.setCtx { c with prio := parsePrio p }) "ok"
   -- `cell.agent_operations[agent] = operation id` assigned from outside: nothing in the coordination layer reads it
   | ["track", _, _] => withDump s "ok"
   | ["shutdown"] => withDump (shutdown s) "ok"
@@ -240,13 +255,13 @@ def step (s : Sys) (toks : List String) : Sys × String :=
     let (adv, _) := parseAdv cps work val
     let reqL := parseReq req
     let op := natD o
-    let r := exec s op (intD p) reqL adv
+    let r := exec s op (parsePrio p) reqL adv
     withDump r.sys (showExec r adv (tokHead val) op reqL) (execTags r ++ killedTag r adv op)
   | ["cell", o, p, req, cps, work, val, post] =>
     let (adv, _) := parseAdv cps work val
     let reqL := parseReq req
     let op := natD o
-    let c := cellExecute s op (intD p) reqL adv (parsePost post)
+    let c := cellExecute s op (parsePrio p) reqL adv (parsePost post)
     let blk := if c.blockedByCoordination then "coordination" else "none"
     withDump c.sys
       (s!"cell:{showBool c.success} {blk} out:{showBool c.hasOutput} att:{showBool c.coordAttached} " ++
